@@ -219,7 +219,7 @@ def conclude(pid, tier, seed, mod, mod_name, names, results, t0):
             if len(samples) < 6:
                 samples.append({'instance': n, **s})
         for pm in r['path_models']:
-            if 'expect' in pm:
+            if 'expect' in pm and not pm.get('float_uncertain'):
                 selfcheck_cases.append({'kind': 'selfcheck', 'instance': n, 'params': r['params'],
                                         'inputs': pm['inputs'], 'expect': pm['expect']})
         if not r['complete']:
@@ -355,6 +355,10 @@ def conclude(pid, tier, seed, mod, mod_name, names, results, t0):
           f'solver={totals["solver_s"]:.1f}s wall={wall:.1f}s obligations={n_dis}/{n_obl} discharged')
     for label, agg in sorted(obligations.items()):
         print(f'  {label}: {agg["status"]} (paths={agg["paths"]}, proved={agg["proved"]})')
+    slow = sorted((r for r in results.values() if 'stats' in r), key=lambda r: -r['wall_s'])[:4]
+    print('  slowest instances: ' + '; '.join(
+        f'{r["name"]} {r["wall_s"]:.0f}s paths={r["paths"]} q={r["stats"]["queries"]} unk={r["stats"]["unknown"]}'
+        for r in slow))
     for line in inconclusive[:10]:
         print(f'INCONCLUSIVE {line}')
     for label, agg in sorted(obligations.items()):
